@@ -87,6 +87,112 @@ def bounds_corners(h):
     h.check("scene-bounds-attained", h.all([h.any([h.eq(b[0][d], corners[n][0][d]) for n in ("n1", "n2")]) for d in range(3)] + [h.any([h.eq(b[1][d], corners[n][1][d]) for n in ("n1", "n2")]) for d in range(3)]))
 
 
+class _GhostGraph:
+    def __init__(self, table):
+        self.table = table
+        self.nodes_geometry = list(table)
+
+    def __getitem__(self, k):
+        return self.table[k]
+
+
+def _absdet3(h, W):
+    d = W[0, 0] * (W[1, 1] * W[2, 2] - W[1, 2] * W[2, 1]) - W[0, 1] * (W[1, 0] * W[2, 2] - W[1, 2] * W[2, 0]) + W[0, 2] * (W[1, 0] * W[2, 1] - W[1, 1] * W[2, 0])
+    return d, h.abs(d)
+
+
+@contract("C10", SC + ".volume", name="sum-over-instances-of-volume-times-|det|", timeout=60000)
+def scene_volume(h):
+    """every instance of every geometry that has a volume counts, scaled by |det| of ITS node
+    transform (instances of one geometry under different transforms, a geometry without volume)"""
+    v1, v2 = h.real("v1"), h.real("v2")
+    W1, W2, W3 = _affine(h, "W1"), _affine(h, "W2"), _affine(h, "W3")
+    geom = {"g": Ghost(volume=v1, area=1.0), "k": Ghost(volume=v2, area=1.0), "cloud": Ghost(vertices=None)}
+    g = Ghost(geometry=geom, graph=_GhostGraph({"n1": (W1, "g"), "n2": (W2, "g"), "n3": (W3, "k"), "n4": (W1, "cloud")}))
+    out = h.method(SC + ".volume")(g)
+    want = v1 * _absdet3(h, W1)[1] + v1 * _absdet3(h, W2)[1] + v2 * _absdet3(h, W3)[1]
+    h.check("volume=Σ_instances volume(geometry)·|det(node transform)|", h.eq(out, want, rtol=1e-9, atol=1e-9))
+
+
+@contract("C10", SC + ".center_mass", name="mass-weighted-mean-of-placed-centres", timeout=120000)
+def scene_center_mass(h):
+    """centre of mass = Σ m_i |det W_i| (W_i c_i) / Σ m_i |det W_i| over the instances of
+    geometry that has a mass; instances of geometry without mass do not take part"""
+    m1, m2 = h.real("m1"), h.real("m2")
+    h.assume(h.all([m1 > 0.01, m2 > 0.01]) if h.mode == "sym" else (m1 > 0.01 and m2 > 0.01))
+    c1, c2 = h.reals("c1", 3), h.reals("c2", 3)
+    W1, W2, W3 = _affine(h, "W1"), _affine(h, "W2"), _affine(h, "W3")
+    dets = [_absdet3(h, W)[1] for W in (W1, W2, W3)]
+    h.assume(h.all([d > 0.01 for d in dets]) if h.mode == "sym" else all(d > 0.01 for d in dets))
+    geom = {"g": Ghost(center_mass=c1, mass=m1), "k": Ghost(center_mass=c2, mass=m2), "cloud": Ghost(vertices=None)}
+    g = Ghost(geometry=geom, graph=_GhostGraph({"n1": (W1, "g"), "n0": (W1, "cloud"), "n2": (W2, "g"), "n3": (W3, "k")}))
+    out = h.method(SC + ".center_mass")(g)
+    ws = [m1 * dets[0], m1 * dets[1], m2 * dets[2]]
+    tot = ws[0] + ws[1] + ws[2]
+    conds = []
+    for d in range(3):
+        placed = [W[d, 0] * c[0] + W[d, 1] * c[1] + W[d, 2] * c[2] + W[d, 3] for W, c in ((W1, c1), (W2, c1), (W3, c2))]
+        conds.append(h.eq(out[d] * tot, ws[0] * placed[0] + ws[1] * placed[1] + ws[2] * placed[2], rtol=1e-9, atol=1e-9))
+    h.check("centre·Σw = Σ w_i·(W_i c_i)", h.all(conds))
+
+
+@contract("C10", SC + ".triangles", name="instances-placed-in-node-order-mirrors-rewound[2 triangles x 2 instances]", kind="bounded-shape", timeout=120000)
+def scene_triangles(h):
+    """every triangle of every instance is the geometry's triangle moved by the node transform,
+    in node order then face order; under a mirroring transform the corner order is reversed
+    (so that the moved triangle is wound like the transformed solid); triangles_node names
+    the node of every triangle"""
+    T = h.reals("T", (2, 3, 3))
+    W1, W2 = _affine(h, "W1"), _affine(h, "W2")
+    d1, a1 = _absdet3(h, W1)
+    d2, a2 = _absdet3(h, W2)
+    h.assume(h.all([a1 > 0.01, a2 > 0.01]) if h.mode == "sym" else (a1 > 0.01 and a2 > 0.01))
+    Ta = h.np.array(T) if h.mode == "sym" else rnp.array(T, dtype=float)
+    geom = {"g": Ghost(triangles=Ta), "cloud": Ghost(vertices=None)}
+    cache = {}
+    g = Ghost(geometry=geom, graph=_GhostGraph({"a": (W1, "g"), "c": (W1, "cloud"), "b": (W2, "g")}), _cache=cache)
+    # modular: transformations.flips_winding by its contract (C04: true iff det of the 3x3 part < 0)
+    h.stub("trimesh.transformations.flips_winding", lambda M: _absdet3(h, M)[0] < 0)
+
+    # modular: transformations.transform_points by its contract (C04): M.p + t up to the
+    # slack of its identity shortcut (|M - I| < 1e-8 returns the points unchanged)
+    def transform_points(points, matrix, translate=True):
+        rows = []
+        for i in range(points.shape[0]):
+            bound = 1e-8 * (1.0 + h.abs(points[i, 0]) + h.abs(points[i, 1]) + h.abs(points[i, 2]))
+            row = []
+            for ax in range(3):
+                e = h.fresh_real("tp")
+                h.assume(h.all([e <= bound, e >= -bound]))
+                row.append(matrix[ax, 0] * points[i, 0] + matrix[ax, 1] * points[i, 1] + matrix[ax, 2] * points[i, 2] + matrix[ax, 3] + e)
+            rows.append(row)
+        return h.np.array(rows)
+
+    h.stub("trimesh.transformations.transform_points", transform_points)
+    out = h.method(SC + ".triangles")(g)
+    h.check("one-row-per-instance-triangle", tuple(out.shape) == (4, 3, 3))
+    conds = []
+    for inst, (W, d) in enumerate(((W1, d1), (W2, d2))):
+        for t in range(2):
+            for k in range(3):
+                for ax in range(3):
+                    def placed(kk):
+                        return W[ax, 0] * T[t, kk, 0] + W[ax, 1] * T[t, kk, 1] + W[ax, 2] * T[t, kk, 2] + W[ax, 3]
+                    got = out[inst * 2 + t, k, ax]
+
+                    def within(kk):
+                        slack = 1.001e-8 * (1.0 + h.abs(T[t, kk, 0]) + h.abs(T[t, kk, 1]) + h.abs(T[t, kk, 2]))
+                        return h.all([got - placed(kk) <= slack, placed(kk) - got <= slack])
+
+                    if h.mode == "sym":
+                        conds.append(h.implies(d > 0, within(k)))
+                        conds.append(h.implies(d < 0, within(2 - k)))
+                    else:
+                        conds.append(bool(within(k if d > 0 else 2 - k)))
+    h.check("placed-by-the-node-transform;corner-order-reversed-iff-mirrored", h.all(conds))
+    h.check("triangles_node-names-the-instance", [str(x) for x in cache["triangles_node"]] == ["a", "a", "b", "b"])
+
+
 # ----------------------------------------------------------------------------- (b) bounded tier on the real classes
 
 
